@@ -191,6 +191,17 @@ func subCLI(out string, seed uint64, tier string, arg string) {
 	for len(sample) < ncert {
 		sample = append(sample, certs[rng.Intn(len(certs))])
 	}
+	// the raw bytes of a DER file end with the last bytes of the signature value: give some certificates a signature
+	// that ends (zcrypto does not verify it) in each byte or byte pair a text-oriented reader would strip
+	for k, tail := range [][]byte{{0x20}, {0x0a}, {0x0d, 0x0a}, {0x09}, {0x0b}, {0x0c}, {0x00}, {0xc2, 0xa0}, {0xc2, 0x85}, {0xe2, 0x80, 0xa8}} {
+		base := certs[(k*13+int(seed))%len(certs)]
+		der := append([]byte{}, base.DER...)
+		copy(der[len(der)-len(tail):], tail)
+		if v := parseObj("cert", fmt.Sprintf("%s+sigtail%x", base.Name, tail), der); v != nil {
+			sample = append(sample, v)
+			rep.count("signature-tail-variant")
+		}
+	}
 	for i, o := range sample {
 		rs, p := lintObj(o.reparse(), g)
 		if p != "" {
